@@ -213,7 +213,7 @@ PROPS["C19"] = {"level": "other", "r": {"quick": _step_units("c19", "quick"), "t
                 "files": _ST_FILES, "functions": ["RK4/RK23/DOPRI5/DOP853::solve with an adversarial SolOut"],
                 "explanation": _ST_EXPL + " C19: exactly one callback per accepted step with xold = previous x; Interrupt => UserInterrupt and no further evaluation; ModifiedSolution => the derivative is re-evaluated at (x, written state) and that derivative starts the next step; Continue/XOut => the derivative carried into the next step was evaluated at the accepted (x,y).",
                 "assumptions": _ST_ASSUME, "bounds": "n=1; all feasible paths", "outside": ["Radau, BDF", "'doubling the state doubles everything' (relational)"]}
-PROPS["C11"] = {"level": "other", "r": {"quick": _step_units("c11", "quick") + _step_units("c03", "quick") + [_rs().c03_prefix("RK23", False, with_first_step=False), _rs().c03_prefix("DOPRI5", False, with_first_step=False)],
+PROPS["C11"] = {"level": "other", "r": {"quick": _step_units("c11", "quick") + _step_units("c03", "quick") + [_rs().c03_prefix("RK23", False, with_first_step=False), _rs().c03_prefix("DOPRI5", False, with_first_step=False), _rs().c03_prefix("RK23", True, with_first_step=False)],
                                         "thorough": _step_units("c11", "thorough") + _step_units("c03", "thorough")},
                 "files": _ST_FILES, "functions": ["solve() loop heads, step-size clamps, hinit"],
                 "explanation": _ST_EXPL + " C11: accepted intervals <= max_step (1% stretch only on the landing step), |h| <= max_step is part of the preserved loop-head invariant; the first trial step is first_step signed toward xend; max_steps is read once per iteration against the total step count and, once exhausted, the run ends with NeedLargerNMax without further evaluations.",
@@ -479,6 +479,15 @@ PROPS["C13"] = {
 }
 
 
+# Radau's rejection branch with a NaN / inf error norm, bit-precisely (R over z3 Float64 terms on the source slice)
+for _t in ("quick", "thorough"):
+    PROPS["C04"]["r"][_t] = PROPS["C04"]["r"][_t] + [_ri().c04_radau_controller_nan]
+PROPS["C04"]["files"] = PROPS["C04"]["files"] + ["src/methods/radau.rs"]
+PROPS["C04"]["explanation"] += (" Radau (engine R, bit-precise): the controller statements fac/quot/hnew and the rejection arm of `if err <= 1.0`, sliced from the source and executed over z3 Float64 terms "
+                                "(NaN, infinities, Rust's max/min/clamp semantics): a NaN or +inf error norm is rejected and the next step is finite, points the same way and is <= 0.95|h|, for every finite h and "
+                                "every controller parameter in its documented range; confirmed natively through solve_ivp with a right-hand side that turns NaN (hang detection).")
+PROPS["C04"]["outside"] = [o.replace("Radau, BDF", "Radau beyond its rejection branch; BDF") for o in PROPS["C04"]["outside"]]
+
 # C03's last clause ("under Success all values produced by error-controlled methods are finite"): the NaN half, bit-precisely (K)
 PROPS["C03"]["k"] = {"quick": [n for n in _C04_N if "dop853" not in n and "back" not in n], "thorough": _C04_N}
 PROPS["C03"]["caps"] = {"quick": {"timeout_s": 900, "mem_gb": 12}, "thorough": {"timeout_s": 3600, "mem_gb": 14}}
@@ -509,8 +518,10 @@ PROPS["C19"]["r"]["quick"] = PROPS["C19"]["r"]["quick"] + [_rs().c03_times(m, b)
 PROPS["C19"]["r"]["thorough"] = PROPS["C19"]["r"]["thorough"] + [_rs().c03_times(m, b) for m, b in _EXPL_T]
 PROPS["C19"]["r"]["quick"] = PROPS["C19"]["r"]["quick"] + [_rb().bdf_protocol(False), _rb().bdf_protocol(True)]
 PROPS["C19"]["r"]["thorough"] = PROPS["C19"]["r"]["thorough"] + [_rb().bdf_protocol(False), _rb().bdf_protocol(True), _rb().bdf_iteration(False), _rb().bdf_iteration(True)]
-PROPS["C03"]["r"]["quick"] = PROPS["C03"]["r"]["quick"] + [_rb().bdf_iteration(False), _rs().c03_prefix("RK23", False, with_first_step=False), _rs().c03_prefix("DOPRI5", False, with_first_step=False)]
-PROPS["C05"]["r"]["quick"] = PROPS["C05"]["r"]["quick"] + [_rb().bdf_iteration(True)]
+PROPS["C03"]["r"]["quick"] = PROPS["C03"]["r"]["quick"] + [_rb().bdf_iteration(False), _rs().c03_prefix("RK23", False, with_first_step=False), _rs().c03_prefix("DOPRI5", False, with_first_step=False),
+                                                           _rs().c03_prefix("RK23", True, with_first_step=False)]
+PROPS["C05"]["r"]["quick"] = PROPS["C05"]["r"]["quick"] + [_rb().bdf_iteration(True)] + [_rs().c03_times(m, b) for m, b in _EXPL_Q]
+PROPS["C05"]["files"] = PROPS["C05"]["files"] + _ST_FILES + ["src/methods/bdf.rs"]
 PROPS["C05"]["r"]["thorough"] = PROPS["C05"]["r"]["thorough"] + [_rb().bdf_iteration(False), _rb().bdf_iteration(True)]
 PROPS["C03"]["r"]["thorough"] = PROPS["C03"]["r"]["thorough"] + [_rb().bdf_iteration(False), _rb().bdf_iteration(True)]
 PROPS["C11"]["r"]["thorough"] = PROPS["C11"]["r"]["thorough"] + [_rb().bdf_iteration(False), _rb().bdf_iteration(True)]
@@ -531,11 +542,21 @@ for _p in ("C03", "C18", "C19"):
     PROPS[_p]["files"] = PROPS[_p]["files"] + ["src/methods/radau.rs"]
     PROPS[_p]["explanation"] += _RADAU_NOTE
     PROPS[_p]["outside"] = [o.replace("Radau; BDF with more", "Radau beyond one Newton iteration per step and the preservation of its loop-head invariant on accepted steps (no solver verdict within the cap); BDF with more") for o in PROPS[_p]["outside"]]
-PROPS["C03"]["r"]["quick"] = PROPS["C03"]["r"]["quick"] + [_rr().radau_prefix(False), _rr().radau_prefix(True)]
-PROPS["C03"]["r"]["thorough"] = PROPS["C03"]["r"]["thorough"] + [_rr().radau_prefix(False), _rr().radau_prefix(True), _rr().radau_iteration(False)]
-PROPS["C18"]["r"]["quick"] = PROPS["C18"]["r"]["quick"] + [_rr().radau_prefix(False)]
-PROPS["C18"]["r"]["thorough"] = PROPS["C18"]["r"]["thorough"] + [_rr().radau_prefix(False), _rr().radau_iteration(False)]
-PROPS["C19"]["r"]["quick"] = PROPS["C19"]["r"]["quick"] + [_rr().radau_prefix(False)]
+_RAD_PARTS = [_rr().radau_iteration(False, pt) for pt in _rr().PARTS]           # thorough: the full havoc in four parts (~15 min each)
+_RAD_LITE = [_rr().radau_iteration(False, _rr().LITE, False)]                     # quick: reject/call flags fixed, first/last arbitrary (~3 min)
+PROPS["C03"]["r"]["quick"] = PROPS["C03"]["r"]["quick"] + [_rr().radau_prefix(False), _rr().radau_prefix(True)] + _RAD_LITE
+PROPS["C03"]["r"]["thorough"] = PROPS["C03"]["r"]["thorough"] + [_rr().radau_prefix(False), _rr().radau_prefix(True)] + _RAD_PARTS
+PROPS["C18"]["r"]["quick"] = PROPS["C18"]["r"]["quick"] + [_rr().radau_prefix(False)] + _RAD_LITE
+PROPS["C18"]["r"]["thorough"] = PROPS["C18"]["r"]["thorough"] + [_rr().radau_prefix(False), _rr().radau_newton(3)] + _RAD_PARTS
+PROPS["C19"]["r"]["quick"] = PROPS["C19"]["r"]["quick"] + [_rr().radau_prefix(False), _rr().radau_initial_modified] + _RAD_LITE
+PROPS["C19"]["r"]["thorough"] = PROPS["C19"]["r"]["thorough"] + [_rr().radau_initial_modified]
+PROPS["C06"]["r"]["quick"] = PROPS["C06"]["r"]["quick"] + [_rb().bdf_interp_span(False), _rb().bdf_interp_span(True),
+                                                           _rh().c06_dense_collection(2, configs=[("All", 1)]), _rh().c06_dense_collection(2, backward=True, configs=[("Negative", 1)])]
+PROPS["C06"]["r"]["thorough"] = PROPS["C06"]["r"]["thorough"] + [_rb().bdf_interp_span(False), _rb().bdf_interp_span(True), _rr().radau_newton(3), _rr().radau_newton(3, True),
+                                                                 _rh().c06_dense_collection(2, configs=[("All", 1)]), _rh().c06_dense_collection(3, backward=True, configs=[("Negative", 1)])]
+PROPS["C06"]["files"] = PROPS["C06"]["files"] + ["src/methods/bdf.rs", "src/methods/radau.rs"]
+PROPS["C13"]["r"]["quick"] = PROPS["C13"]["r"]["quick"] + [_ri().c13_radau_rms, _rc().c13_duplicated_hinit]
+PROPS["C13"]["r"]["thorough"] = PROPS["C13"]["r"]["thorough"] + [_ri().c13_radau_rms, _rc().c13_duplicated_hinit]
 PROPS["C19"]["r"]["thorough"] = PROPS["C19"]["r"]["thorough"] + [_rr().radau_prefix(False), _rr().radau_protocol(False)]
 PROPS["C11"]["r"]["quick"] = PROPS["C11"]["r"]["quick"] + [_rr().radau_prefix(False)]
 PROPS["C11"]["files"] = PROPS["C11"]["files"] + ["src/methods/radau.rs"]
